@@ -714,6 +714,7 @@ func returnsFresh(p *an.Prog, fn *ssa.Function, idx, depth int) bool {
 type ownerInfo struct {
 	shared []*types.Named // shared struct types written into
 	bases  []ssa.Value    // object identities (pointer values / value roots)
+	viaRef bool           // the written storage was reached through a reference read out of memory
 }
 
 // ownersOf walks from a written address or container up to the object(s) it
@@ -780,7 +781,9 @@ func ownersOf(dst ssa.Value, isContainer bool) ownerInfo {
 				return
 			}
 			if container {
-				// a slice/map loaded from memory: it belongs to whatever holds that memory
+				// a slice/map loaded from memory: it belongs to whatever holds that memory - and to
+				// every copy of the struct it was read from
+				info.viaRef = true
 				walk(x.X, true)
 				return
 			}
@@ -845,6 +848,10 @@ func runM5(p *an.Prog, r *an.Result) {
 			fresh := len(info.bases) > 0
 			for _, b := range info.bases {
 				if !isFresh(p, b, 0) {
+					fresh = false
+				}
+				// a local copy of a struct is new, the maps/slices/pointers inside it are not
+				if al, ok := b.(*ssa.Alloc); ok && info.viaRef && copiedStruct(p, al) {
 					fresh = false
 				}
 			}
@@ -1045,6 +1052,17 @@ func sameObject(a, b ssa.Value) bool {
 			return len(an.Stores(c)) <= 1
 		case *ssa.FreeVar:
 			return len(an.Stores(c)) == 0
+		}
+	}
+	return false
+}
+
+// copiedStruct: the local al receives a whole struct value that was not built in this function
+// (a parameter, a receiver, a load from elsewhere): its reference-typed fields alias the original's.
+func copiedStruct(p *an.Prog, al *ssa.Alloc) bool {
+	for _, sv := range an.Stores(al) {
+		if !isFresh(p, sv, 0) {
+			return true
 		}
 	}
 	return false
